@@ -5,5 +5,26 @@ NONTRIVIAL = {"C01": ["dec_ok", "key_creations"], "C02": ["faulted_ops", "key_cr
               "C04": ["key_creations", "metastore_reads"], "C05": ["revocations", "metastore_reads"], "C07": ["mutated_records"],
               "C09": ["key_creations", "faulted_ops", "metastore_reads"], "C10": ["metastore_reads", "dec_ok"], "C20": ["enc_ok", "dec_ok"]}
 
+def concurrent_nonces(ctx):
+    """goroutines encrypting at once under one intermediate key: every wrap nonce / data nonce of every
+    returned record must be distinct (a nonce source with shared unsynchronised state repeats values
+    only under concurrency, which the sequential histories cannot show)"""
+    import os
+    ov = envelope.build_overlay(ctx, sync=True)
+    hx = ctx.build_go("hxconc", overlay=ov) if ov else None
+    if not hx: return
+    tr = os.path.join(ctx.work, "nonces.out")
+    args = ["-mode", "nonces", "-rounds", "4" if ctx.tier == "quick" else "40", "-goroutines", "8", "-ops", "3000"]
+    if ctx.run_harness(hx, args, tr, timeout=900):
+        lines = open(tr).read().splitlines()
+        for l in lines:
+            if l.endswith("VIOLATION"):
+                ctx.monitor_fail.append({"what": l, "signature": "concurrent-nonces " + l,
+                                         "case": "# replay: build/hxconc %s (racy: repeat if it does not show at once)\n%s" % (" ".join(args), l)})
+        ctx.notes["concurrent_nonce_runs"] = [l for l in lines if l.startswith("nonces")][:4]
+        ctx.cov["evaluations"] += sum(int(x) for l in lines for x in __import__("re").findall(r"encrypts=(\d+)", l))
+
+
 def run(ctx):
-    return envelope.run(ctx, "C03", ["AsherahVerif.Props.C03"], NONTRIVIAL["C03"], modes=(('faults',), ('faultpairs', 'allboundaries')))
+    return envelope.run(ctx, "C03", ["AsherahVerif.Props.C03"], NONTRIVIAL["C03"], modes=(('faults',), ('faultpairs', 'allboundaries')),
+                        pre_finish=concurrent_nonces)
